@@ -87,6 +87,19 @@ def showPlan (plan : List Batch) : String :=
   let bs := plan.map (fun b => if b.isEmpty then "none" else ",".intercalate (b.map showW))
   s!"{plan.length} " ++ " ; ".intercalate bs
 
+/-- FNV-1a (64 bit) over the logical entries of the frontier outside the bookkeeping keys: for each entry
+    be32 |k|, be32 |v|, k, v. Same function as `fnv64` in the harness. -/
+def fnvFeed (h : Nat) (b : Nat) : Nat := ((h ^^^ b) * 1099511628211) % 18446744073709551616
+
+def fnvEntries (es : Raw) : Nat :=
+  es.foldl (fun h e =>
+    let bytes := beBytes 4 e.1.length ++ beBytes 4 e.2.length ++ e.1 ++ e.2
+    bytes.foldl fnvFeed h) 14695981039346656037
+
+def frontierDigest (l : Ldb) : String :=
+  let es := (edEntries l.frontier).filter (fun e => isUserKey e.1)
+  s!"{es.length} {fnvEntries es}"
+
 def vdbStep (st : VdbSt) : List String → Option (VdbSt × String)
   | ["vdb-reset"] => some ({}, "ok")
   | ["vdb-add", prev, id, ops] => do
@@ -101,6 +114,7 @@ def vdbStep (st : VdbSt) : List String → Option (VdbSt × String)
     | none => some ({ st with lastPlan := [] }, "err")
     | some l => some ({ st with ldb := l, lastPlan := planPop st.ldb }, "ok")
   | ["crash-plan"] => some (st, showPlan st.lastPlan)
+  | ["sync-digest", _] => some (st, frontierDigest st.ldb)
   | ["vdb-view", name, id] => do
     let id ← parseId id
     match st.ldb.get id with
